@@ -6,18 +6,23 @@ package main
 // cfg: [memReq maxReq memResp maxResp hasPred pred...]      (mem/max < 0: option not passed => oxy's default)
 //      pred prefix code: 0 And l r | 1 Or l r | 2 IsNetworkError() | 3 op mapper n | 4 op methodId | 5 Paren p
 //      op: 0 == 1 != 2 < 3 > 4 <= 5 >= ; mapper: 0 Attempts() 1 ResponseCode(); methods: 0 GET 1 POST 2 HEAD 3 PUT
-// op : [method urlId bodyId bodyLen chunked nReqHdr {k v} nScripts {nEvents {tag a b}}]
+// op : [method urlId bodyId bodyLen framing nReqHdr {k v} nScripts {nEvents {tag a b}}]
+//      framing: 0 declared length | 1 chunked | 2+2*cut+(0|1): same, and the client side accepts only the first `cut`
+//      body bytes of the response (every later Write on the ResponseWriter fails)
 //      events: 0 SetHeader k v | 1 WriteHeader c | 2 Write id n | 3 ReadBody k (k<0: to EOF) | 4 ScribbleHeader k v
 //              | 5 ScribbleURL u | 6 Hijack | 7 Flush.  Attempt i runs script i (the last script is repeated).
 // obs: [origCL status nh {k v} bodyLen bodySum tempFilesLeft nInv {method url cl teLen nh {k v} readLen readSum}]
 // Monitors (independent of the Coq model): C06, C07, C15 — see the monitor section of Run.
 
 import (
+	"bufio"
 	"bytes"
+	"errors"
 	"fmt"
 	"io"
 	"log"
 	"math/rand"
+	"net"
 	"net/http"
 	"net/http/httptest"
 	"os"
@@ -233,6 +238,7 @@ type ev struct{ t, a, b int64 }
 
 type exch struct {
 	method, url, bodyID, bodyLen, chunked int64
+	cut                                   int64 // < 0: the ResponseWriter accepts everything
 	hdrs                                  [][2]int64
 	scripts                               [][]ev
 }
@@ -243,6 +249,14 @@ func decExchange(op []int64) (exch, bool) {
 		return x, false
 	}
 	x.method, x.url, x.bodyID, x.bodyLen, x.chunked = op[0], op[1], op[2], op[3], op[4]
+	x.cut = -1
+	if x.chunked >= 2 {
+		x.cut = (x.chunked - 2) / 2
+		x.chunked %= 2
+		if x.cut > 1<<22 {
+			return x, false
+		}
+	}
 	if x.method < 0 || x.method > 2 || x.bodyLen < 0 || x.bodyLen > 1<<22 || x.url < 0 || (x.chunked != 0 && x.chunked != 1) {
 		return x, false
 	}
@@ -344,6 +358,7 @@ type invocation struct {
 	cl     int64
 	te     []string
 	read   []byte
+	tmp    int64 // named temp-multibuf files present when the invocation returned
 }
 
 type exchState struct {
@@ -354,6 +369,27 @@ type exchState struct {
 	origHdr  http.Header
 	origKept bool // original request's URL and headers unchanged after ServeHTTP
 	done     chan struct{}
+}
+
+// cutWriter: a ResponseWriter whose peer goes away after `left` body bytes: the bytes up to there pass, the Write
+// that crosses the mark is short and fails, every later one fails
+type cutWriter struct {
+	http.ResponseWriter
+	left int64
+}
+
+func (c *cutWriter) Write(p []byte) (int, error) {
+	if int64(len(p)) <= c.left {
+		c.left -= int64(len(p))
+		return c.ResponseWriter.Write(p)
+	}
+	n, _ := c.ResponseWriter.Write(p[:c.left])
+	c.left = 0
+	return n, errors.New("write: broken pipe")
+}
+
+func (c *cutWriter) Hijack() (net.Conn, *bufio.ReadWriter, error) {
+	return c.ResponseWriter.(http.Hijacker).Hijack()
 }
 
 type unknownLen struct{ io.Reader } // hides the length: the client must use chunked framing
@@ -456,6 +492,13 @@ func decCfg(c []int64) (cfgT, bool) {
 	return out, true
 }
 
+func cutTo(s string, cut int64) string {
+	if cut >= 0 && int64(len(s)) > cut {
+		return s[:cut]
+	}
+	return s
+}
+
 func effLimit(max int64) int64 { // > 0: limited
 	if max <= 0 {
 		return 0
@@ -553,6 +596,14 @@ func (c *bufComp) Run(h *hlib.History) ([]hlib.Mon, bool) {
 				break
 			}
 		}
+		// named temporary files at the moment the handler returns (nothing deferred by ServeHTTP has run yet)
+		if ents, err := os.ReadDir(dir); err == nil {
+			for _, e := range ents {
+				if strings.HasPrefix(e.Name(), "temp-multibuf-") {
+					rec.tmp++
+				}
+			}
+		}
 		st.invs = append(st.invs, rec)
 	})
 
@@ -596,6 +647,9 @@ func (c *bufComp) Run(h *hlib.History) ([]hlib.Mon, bool) {
 			st.origKept = req.URL.String() == st.origURL && sameHeader(req.Header, st.origHdr)
 			close(st.done)
 		}()
+		if st.x.cut >= 0 {
+			w = &cutWriter{ResponseWriter: w, left: st.x.cut}
+		}
 		buf.ServeHTTP(w, req)
 	})
 	srv := httptest.NewUnstartedServer(outer)
@@ -664,6 +718,9 @@ func (c *bufComp) Run(h *hlib.History) ([]hlib.Mon, bool) {
 			obs = append(obs, methodID(in.method), urlID(in.url), in.cl, int64(len(in.te)))
 			obs = append(obs, encPairs(hdrPairs(in.hdr, "X-Req-"))...)
 			obs = append(obs, int64(len(in.read)), checksum(in.read))
+		}
+		for _, in := range st.invs {
+			obs = append(obs, in.tmp)
 		}
 		h.Obs = append(h.Obs, obs)
 
@@ -771,6 +828,19 @@ func (c *bufComp) Run(h *hlib.History) ([]hlib.Mon, bool) {
 			hit("C15", fmt.Sprintf("%d temp-multibuf file(s) left after the exchange (status %d, %d invocations)", left, status, len(st.invs)))
 		}
 
+		// C15: a response beyond the in-memory threshold is spilled: while its bytes are held (the handler has just
+		// returned, nothing was delivered or released yet) a temporary file exists
+		effMemResp := cfg.memResp
+		if effMemResp <= 0 {
+			effMemResp = 1 << 20
+		}
+		for i, in := range st.invs {
+			a := attOf(scriptOf(x.scripts, i+1))
+			if !a.hijack && !a.overflow && a.sum > effMemResp && in.tmp == 0 {
+				hit("C15", fmt.Sprintf("attempt %d: the handler wrote %d bytes, beyond the in-memory threshold %d, and no temporary file exists when it returns", i+1, a.sum, effMemResp))
+			}
+		}
+
 		// C07: number of invocations
 		if len(st.invs) > 11 {
 			hit("C07", fmt.Sprintf("handler invoked %d times", len(st.invs)))
@@ -781,7 +851,7 @@ func (c *bufComp) Run(h *hlib.History) ([]hlib.Mon, bool) {
 		// C07/C15: the single response is the final attempt's
 		if !overReq && len(st.invs) == wantInv && wantInv > 0 && !last.hijack {
 			if last.overflow {
-				if status < 400 || !(len(respBody) == 0 || string(respBody) == http.StatusText(int(status))) {
+				if status < 400 || !(len(respBody) == 0 || string(respBody) == cutTo(http.StatusText(int(status)), x.cut)) {
 					hit("C15", fmt.Sprintf("response of %d bytes over the limit %d: client got status %d and %d body bytes", last.sum, cfg.maxResp, status, len(respBody)))
 				}
 			} else {
@@ -794,7 +864,7 @@ func (c *bufComp) Run(h *hlib.History) ([]hlib.Mon, bool) {
 				}
 				var wantBody []byte
 				if carries {
-					wantBody = last.written
+					wantBody = []byte(cutTo(string(last.written), x.cut))
 				}
 				var wantPairs [][2]int64
 				for k, v := range last.hdr {
@@ -1005,6 +1075,14 @@ func (c *bufComp) Gen(rng *rand.Rand, idx int, tier string, targeted bool) hlib.
 		if chunked == 1 && bodyLen == 0 && method != 1 {
 			chunked = 0
 		}
+		if rng.Intn(6) == 0 { // the client goes away while the response is delivered
+			memResp := h.Cfg[2]
+			if memResp <= 0 || memResp > 1<<16 {
+				memResp = 64
+			}
+			chunked += 2 + 2*hlib.Pick(rng, 0, 1, int64(rng.Intn(40)), memResp-1, memResp, memResp+1, memResp+int64(rng.Intn(200)), int64(rng.Intn(3000)))
+			hlib.Count("client_gone_mid_response", 1)
+		}
 		op := []int64{method, int64(rng.Intn(50)), int64(rng.Intn(1000)), bodyLen, chunked}
 		nh := rng.Intn(3)
 		op = append(op, int64(nh))
@@ -1082,7 +1160,7 @@ func (c *bufComp) Describe(h *hlib.History) interface{} {
 			}
 			scripts = append(scripts, strings.Join(parts, "; "))
 		}
-		d := map[string]interface{}{"method": methodNames[x.method], "bodyLen": x.bodyLen, "chunked": x.chunked == 1,
+		d := map[string]interface{}{"method": methodNames[x.method], "bodyLen": x.bodyLen, "chunked": x.chunked == 1, "clientAcceptsBytes": x.cut,
 			"reqHeaders": x.hdrs, "url": x.url, "attemptScripts": scripts}
 		if i < len(h.Obs) {
 			d["obs"] = h.Obs[i]
